@@ -23,8 +23,8 @@ INFO = {
     "C02": {
         "functions": ["Cpu::exec", "add_b/w/l(_imm,_rn)", "sub_b/w/l", "cmp_*", "addx_*", "neg_*", "inc_*", "dec_*", "adds*", "subs*", "mulxu_*", "divxu_*", "read/write_rn_*"],
         "bounds": "one instruction per harness; both operands at full width (ADD.L/SUB.L/CMP.L over all 2^64 operand pairs), carry-in, all register fields, all CCR values; "
-                  "MULXU.W 16x16 and DIVXU.W 32/16 at full width; DIVXU under divisor != 0 and quotient fits",
-        "outside": "DIVXU with zero divisor / overflowing quotient (undefined in the manual, excluded by the property)",
+                  "MULXU.W 16x16 at full width; DIVXU.B at full width; DIVXU.W with divisor < 16 (quick) / < 256 (thorough); DIVXU under divisor != 0 and quotient fits",
+        "outside": "DIVXU.W with a divisor >= 256 (CaDiCaL gave no answer within 30 minutes in three formulations); DIVXU with zero divisor / overflowing quotient (excluded by the property)",
         "assumptions": COMMON_INSTR + ["DIVXU result checked through the Euclidean relation q*d+r = a, r < d on the emulator's output (unique solution)"],
     },
     "C03": {
